@@ -39,7 +39,61 @@ def _calibrated():
 EUCLID_OK = None
 
 
+def _generate_rowindep(rnd):
+    """Metrics whose parameters scipy derives from the data handed to cdist (seuclidean, mahalanobis): no exact reference
+    distances, but the neighbourhood of a query is a function of (stored observations, THIS query) only, so a row answered
+    inside a block of several rows must get the answer it gets alone."""
+    lp = gen.det_lp(rnd)
+    kind, arms, spare = gen.gen_arms(rnd, hi=4)
+    d = rnd.randint(2, 3)
+    metric = rnd.choice(["seuclidean", "mahalanobis", "seuclidean"])
+    n = rnd.randint(8, 20)
+    rows = gen.gen_rows(rnd, arms, n, d, "float", "nonneg_real" if lp[0] != "LinUCB" else "real", True)
+    Q = [list(rnd.choice(rows)[2]) for _ in range(2)] + [[round(rnd.uniform(-40, 40), 3) for _ in range(d)] for _ in range(rnd.randint(1, 3))]
+    rnd.shuffle(Q)
+    np_ = ["KNearest", {"k": rnd.randint(1, 4), "metric": metric}] if rnd.random() < 0.6 else \
+        ["Radius", {"radius": rnd.choice([0.5, 1.0, 1.5, 2.5]), "metric": metric}]
+    cfg = {"arms": arms, "lp": lp, "np": np_, "seed": rnd.randrange(2 ** 20), "n_jobs": rnd.choice([1, 2]), "backend": None}
+    return {"cfg": cfg, "regime": "float", "rowindep": True,
+            "ops": [{"op": "fit", "rows": rows}, {"op": "expect", "Q": Q, "sched": kernel.Sched.draw(rnd)}]}
+
+
+def _execute_rowindep(case, ctx):
+    import copy
+    cfg = case["cfg"]
+    P = Session(cfg)
+    for step, op in enumerate(case["ops"]):
+        ctx.ev("op", op["op"], step)
+        ctx.fired("ops")
+        if op["op"] == "fit":
+            if P.apply(op)[0] != "ok":
+                return
+            ctx.fired("ops.train")
+            continue
+        Q = op["Q"]
+        alone = []
+        for q in Q:
+            try:
+                alone.append(copy.deepcopy(P.mab).predict_expectations([list(q)]))
+            except Exception:
+                return          # undefined for this data (singular covariance ...): no claim
+        r = P.apply(op, sched=op.get("sched"))
+        if r[0] != "ok":
+            ctx.violate("query-raised", step, {"res": r})
+            return
+        ctx.fired("probe.data_dependent_metric_row_independence")
+        for i, (a, b) in enumerate(zip(alone, r[1])):
+            ctx.fired("oracle.comparisons")
+            dd = diff(a, b, 1e-9, 1e-9)
+            if dd:
+                ctx.violate("neighbourhood-depends-on-other-query-rows", step, {"row": i, "metric": cfg["np"][1]["metric"],
+                                                                                "diff": dd})
+                return
+
+
 def generate(rnd, tier, index=0):
+    if rnd.random() < 0.08:
+        return _generate_rowindep(rnd)
     lp = gen.gen_lp(rnd, names=CONTEXT_FREE + LINEAR)
     kind, arms, spare = gen.gen_arms(rnd, hi=4)
     d = rnd.randint(1, 3)
@@ -115,6 +169,8 @@ def execute(case, ctx):
     global EUCLID_OK
     if EUCLID_OK is None:
         EUCLID_OK = _calibrated()
+    if case.get("rowindep"):
+        return _execute_rowindep(case, ctx)
     cfg = case["cfg"]
     npname, npkw = cfg["np"]
     metric = npkw["metric"]
